@@ -44,7 +44,8 @@ MANIFEST = {
                 'everything outside the data-free engine core.',
 }
 RULE = ('stream core: data-free single-activation direct workflows (forks, all/partial joins, literal guards, '
-        'task-defaults, failing actions) x oracles x random/fifo/lifo schedules (+ operator commands), model vs real '
+        'task-defaults, failing actions; 60% of the programs with ENGINE COMMANDS fail / succeed / pause / noop in on-clauses, '
+        'model = Mistral.Engine.stepX) x oracles x random/fifo/lifo schedules (+ operator commands), model vs real '
         'after every event; stream engine: generated programs with data flow/guards/engine commands x oracles x '
         'schedules, monitors on the real traces; non-trivial = trace exercises a join, a guard, a handled error or '
         'an engine command; distinct = distinct (definition, oracle, schedule seed, commands); stream live: corpus '
@@ -95,6 +96,12 @@ def search(ctx):
 
 
 def replay(ctx, rep):
+    if isinstance(rep.get('replay'), dict) and rep['replay'].get('stream') == 'core':
+        from harness import boot
+        boot.boot()
+        from harness import core_stream
+        core_stream.replay(ctx, rep)
+        return
     if isinstance(rep.get('replay'), dict) and str(rep['replay'].get('stream', '')).startswith('reverse'):
         from harness import reverse_stream
         return reverse_stream.replay(ctx, rep)
